@@ -703,7 +703,9 @@ Definition h_modify1 (v : version) (s : store) (u : option Z) (a : attr) : outco
                   | inr m => if idx <? Z.of_nat m then Done else Crash (ENGINE ++ ":" ++ MODIFY ++ ":IndexError")%string
                   end
                 else Done
-            | _ => unguarded "modify-unsupported-multivalued" (ENGINE ++ ":" ++ MODIFY ++ ":TypeError")%string   (* len(None) *)
+            | _ => (* `0 <= index < len(None)`: a negative index short-circuits into the ITEM_NOT_FOUND branch *)
+                   if idx <? 0 then Done
+                   else unguarded "modify-unsupported-multivalued" (ENGINE ++ ":" ++ MODIFY ++ ":TypeError")%string
             end)
         else
           match a_index a with
